@@ -152,7 +152,7 @@ PROPS = {
     },
     "C02": {
         "propfile": "PropC02.v",
-        "n": {"quick": 400, "thorough": 10000},
+        "n": {"quick": 800, "thorough": 12000},
         "corr": "policy.PolicyVerifier.VerifyRefFull / VerifyRef / VerifyRefFromEntry vs verify_full / verify_latest / verify_from (World.v)",
         "rule": 'profile C02 (every policy update may be one of the 9 forbidden mutations). generated worlds in an in-memory Storer with real ed25519 signatures: an initial policy (root key(s), primary rule file with 2-4 developers, 1-3 rules incl. thresholds 1-3, optionally one delegated rule file, optionally global rules), then 4-21 events from: pushes to main/feature/other signed by authorised / unauthorised / admin / no key (12% force pushes, 10% tree-reusing commits), approvals (reference authorizations signed by subsets of developers, some for other changes or stored at other paths) followed by the push, policy updates (valid evolutions: rule changes, root rotation, threshold raises, global rules added/dropped; one third forbidden ones: unsigned / wrongly signed root, forged or rolled-back rule files, dropped or dangling delegated files, self-signed replacement root), skip annotations (mostly on violating pushes), fix pushes (tree-same as the last good state), staging and propagation entries. Each world is verified in full for main and feature, latest-only for main and from a random earlier entry. non-trivial = >=2 policy states or a rejected verification',
         "theorems": ['C02_load_state_chain', 'C02_link', 'C02_initial_policy', 'C02_modes_share_the_loop'],
